@@ -240,7 +240,7 @@ def handle (op : String) (args : List String) : Option String :=
     pure ((program e sec 0 asz none none).render fun h =>
       let files := h.files ++ definedFiles h.p (h.program.length + 1) h.program
       -- rows through the call-by-call mirror of `next_row` (= `run`, `Props.C04.next_row_iteration`)
-      let evs := collect h.p (h.program.length + 1) (Row.new h.p) h.program
+      let evs := collect h.p (h.program.length + 1) (Row.new h.p) false h.program
       s!"{h.p.version} {h.p.addrSize} {evsS evs} / {seqsS h.p (sequences h.p h.program)} / {listS fileS files}")
   | _, _ => none
 
